@@ -272,7 +272,7 @@ def debugger_suite(ctx, n_random, hist_len, exhaustive_len, big=False):
                     "x0 := 2147483640;\nLOOP x0 DO x1 := x1 + 2147483646; x2 := x1 - 1; STOP END\n"):
             o = impl(ctx, ['GEN ' + files_req(b'm', {b'm': src.encode()})])[0]
             if not is_crash(o) and fields(o).get('ok') == '1':
-                cases.append({'defs': [], 'main': [], 'files': {b'm': src.encode()}, 'mainf': b'm', 'text': src, 'prog': Prog(fields(o))})
+                cases.append({'defs': [], 'main': [], 'files': {b'm': src.encode()}, 'mainf': b'm', 'text': src, 'prog': Prog(fields(o)), 'bigfixed': True})
     # non-canonical layouts: several statements per line, headers sharing a line with other code, pieces in included files
     from checks import front as _front
     for (m, f, meta) in _front.program_files(ctx, n_random // 3, mutate_frac=0.0, multi_frac=0.6, big=big):
@@ -342,6 +342,13 @@ def debugger_suite(ctx, n_random, hist_len, exhaustive_len, big=False):
             if r.random() < 0.4:
                 h.append('v')
         jobs.append((c, h + ['v']))
+    for c in keep:
+        if c.get('bigfixed'):
+            # resumed by execute() itself, from the start and from a stop in the middle
+            jobs.append((c, ['E', 'v']))
+            jobs.append((c, ['s', 's', 'E', 'v']))
+            if c['prog'].avail:
+                jobs.append((c, ['b:' + c['prog'].avail[-1], 'E', 'v', 'E', 'v']))
     for c in keep:
         if c.get('deep'):
             jobs.append((c, ['e', 'v', 'e', 'e', 'v']))
